@@ -7,6 +7,9 @@
 (* (the decompressed content where a decompressor is configured), the header block, and for *)
 (* WML replies the converted text lexed back into lines of runs of classes / entities.      *)
 (*                                                                                          *)
+(* A `prior` event records that another name was fetched or listed before in the SAME server   *)
+(* process; it is not judged - the clauses below judge the fetch that follows against the      *)
+(* row of the tables alone, so a type that depends on the history fails TypeTruthful.          *)
 (* Property level (VIOLATION):                                                              *)
 (*   Delivered         a complete reply with an OK status came back                          *)
 (*   TypeTruthful      the advertised type is Deliver!TableMime(row) after the protocol's    *)
@@ -51,7 +54,8 @@ Consume ==
     /\ l <= Len(Ev) /\ verdict = "ok"
     /\ l' = l + 1 /\ UNCHANGED tid
     /\ LET e == Ev[l] IN
-       IF e.ev # "fetch" THEN verdict' = "unmatched" /\ UNCHANGED lastget
+       IF e.ev = "prior" THEN verdict' = "ok" /\ UNCHANGED lastget        \* another name served before, same process
+       ELSE IF e.ev # "fetch" THEN verdict' = "unmatched" /\ UNCHANGED lastget
        ELSE IF e.method = "GET"
        THEN /\ verdict' = JudgeGet(e) /\ lastget' = e.headers
             /\ (IF e.st # "ok" \/ Shape(e) THEN TRUE ELSE RecordDrift(tid, l, "header block shape"))
